@@ -60,6 +60,7 @@ def run(ctx):
     c04.create_all(ctx, vh, model, p1sets, lambda *a, **k: None)
     for s in p1sets:
         if s.created is None:
+            report("PAR1 Create failed on the scenario set: no PAR1 fault scenario can be run", {"class": {"op": "create"}}, True)
             continue
         names = [n for n, _ in s.files]
         scen.append(("par1", "create", lambda sched, s=s: P1.line_create("mem", s.index, s.nvol, [s.paths[n] for n, _ in s.files], s.input_fs(), sched), s.input_fs(), s))
